@@ -388,6 +388,10 @@ class MarkdownNormalizer(Renderer):
             with self.container(prefix, subsequent_indent):
                 rendered_item = self.render(child)
                 result.append(rendered_item)
+            # The item has emitted the enclosing first-line prefix (if any): later items of
+            # this list, e.g. in a list that is the first child of an outer item, continue
+            # under the enclosing continuation prefix.
+            self._prefix = self._second_prefix
 
         # Restore the previous list's tightness (for nested lists)
         self._current_list_tight = old_tight
